@@ -22,6 +22,10 @@ _TREETYPES = [("MCQueryGen_treetypesvec.cfg", None, {"md10": True, "cap": {"quic
 _LETROWS = [("MCQueryGen_letrows.cfg", None, {"cap": {"quick": 320, "thorough": 320}})]
 
 
+# list / list-of-lists columns whose inner sequence is flattened (SelectMany) inside a per-object Select
+_INNERMANY = [("MCQueryGen_innermany.cfg", None, {"cap": {"quick": 200, "thorough": 400}})]
+
+
 def _ALL(t, n):
     """random deep derivations over the union of the features (simulation); the simulation seeds are FIXED - their alarms
     were triaged (DESIGN 13.2): one seed in the quick tier, five in the thorough tier"""
@@ -60,10 +64,10 @@ SPECS = {
         clauses=["Accepts", "RowsMatch", "SpuriousFault", "Compiles", "BookingFault"],
         profiles={"quick": [("MCQueryGen_core.cfg", None), ("MCQueryGen_tuples.cfg", None),
                             ("MCQueryGen_let.cfg", None, {"cap": {"quick": 260, "thorough": 1500}}),
-                            ("MCQueryGen_moments.cfg", None, {"backend": "atlas", "cap": {"quick": 160, "thorough": 1000}})] + _ROWS("quick") + _IFFIRST("quick") + _LETROWS + _ALL("quick", 300),
+                            ("MCQueryGen_moments.cfg", None, {"backend": "atlas", "cap": {"quick": 160, "thorough": 1000}})] + _ROWS("quick") + _IFFIRST("quick") + _LETROWS + _INNERMANY + _ALL("quick", 300),
                   "thorough": [("MCQueryGen_core_t.cfg", None), ("MCQueryGen_tuples_t.cfg", None), ("MCQueryGen_fault.cfg", None),
                                ("MCQueryGen_let_t.cfg", None, {"cap": {"quick": 260, "thorough": 1500}}),
-                               ("MCQueryGen_moments_t.cfg", None, {"backend": "atlas", "cap": {"quick": 160, "thorough": 1000}})] + _ROWS("thorough") + _IFFIRST("thorough") + _LETROWS + _ALL("thorough", 300)},
+                               ("MCQueryGen_moments_t.cfg", None, {"backend": "atlas", "cap": {"quick": 160, "thorough": 1000}})] + _ROWS("thorough") + _IFFIRST("thorough") + _LETROWS + _INNERMANY + _ALL("thorough", 300)},
         cap={"quick": 2800, "thorough": 9000},
     ),
     "C02": pcheck.PSpec(
